@@ -333,5 +333,10 @@ pub fn run_case(_ctx: &Ctx, case: &Value, tag: usize, rep: &mut Report, mb: &mut
             tag,
         );
     }
+    // byte-level engine model M5 on the same grammar (state-by-state tie; last, because its guards end the case)
+    let mut guides: Vec<Vec<u8>> = strings.iter().filter(|s| s.len() >= 2).cloned().collect();
+    guides.sort_by(|a, b| b.len().cmp(&a.len()).then(a.cmp(b)));
+    guides.truncate(6);
+    crate::lx::lexer_tie(&w1, &g, &guides, case["seed"].as_u64().unwrap_or(5), tag, rep, mb);
     rep.sample(json!({"regex": match &g { Gram::Regex(s) => s.clone(), Gram::Lark(s) => s.clone(), _ => String::new() }, "strings": strings.len(), "accepted": n_acc}));
 }
